@@ -327,6 +327,70 @@ func fmaLayers(tier string) []Layer {
 			},
 		})
 	}
+	// F6: aliasing with multi-word values whose lowest word lies below / above the product's
+	{
+		vals := []*Opnd{
+			mkInt64(15, -1, 57, 0), mkInt64(-4, 0, 57, 0), mkInt64(12, 0, 57, 0),
+			mkCoef(false, mustInt("12345678901234567890123456789"), -29, 57, 0),
+			mkWords(false, []uint64{1, 0, BW / 10}, 20, 57, 0),
+			mkWords(true, []uint64{BW - 1, BW - 1}, -30, 57, 0),
+			mkInt64(1, -30, 57, 0),
+		}
+		parts := partitions(3)
+		layers = append(layers, Layer{
+			Name:   "F6-aliasing-multiword",
+			Units:  len(parts),
+			Bounds: fmt.Sprintf("all %d aliasing partitions of {z,x,y,u} × one value per class from 7 values (1..3-word mantissas, 29 and 57 digits, 1e-30) × receiver precision {20,38,57} × modes Even/ToZero/ToPositiveInf × receiver pre-states {fresh, held-longer, big-dirty} when z is not an operand", len(parts)),
+			Run: func(c *Ctx, u int) {
+				part := parts[u]
+				nclass := 0
+				for _, cl := range part {
+					if cl+1 > nclass {
+						nclass = cl + 1
+					}
+				}
+				zAliased := part[1] == 0 || part[2] == 0 || part[3] == 0
+				idx := make([]int, nclass)
+				for {
+					ops := []*Opnd{vals[idx[part[1]]], vals[idx[part[2]]], vals[idx[part[3]]]}
+					for _, prec := range []uint32{20, 38, 57} {
+						fits := true
+						for i := 1; i <= 3; i++ {
+							if zAliased && part[i] == 0 && minPrecWords(ops[i-1].Words) > int64(prec) {
+								fits = false
+							}
+						}
+						if !fits {
+							continue
+						}
+						for _, m := range []uint8{ToNearestEven, ToZero, ToPositiveInf} {
+							if zAliased {
+								fmaCase(c, ops, part, prec, m, preFresh)
+							} else {
+								for _, pre := range []int{preFresh, preLonger, preBigDirty} {
+									fmaCase(c, ops, part, prec, m, pre)
+								}
+							}
+						}
+					}
+					i := 0
+					if !zAliased {
+						i = 1
+					}
+					for ; i < nclass; i++ {
+						idx[i]++
+						if idx[i] < len(vals) {
+							break
+						}
+						idx[i] = 0
+					}
+					if i >= nclass || c.Done() {
+						break
+					}
+				}
+			},
+		})
+	}
 	// F5: product outside the exponent range while the sum is inside / sticky-only products
 	{
 		type tc struct{ ex, ey, eu int64 }
